@@ -701,3 +701,827 @@ Proof.
   - now apply inplace_drive_start.
   - unfold drive_fuel, drive_potential, pot. lia.
 Qed.
+
+(* ------------------------------------------------------------------ streaming (output-mode) buffers *)
+
+Lemma ensure_cases : forall b n, ensure b n = (true, b) \/ ensure b n = (false, with_ok b false).
+Proof. intros. unfold ensure. destruct (n <? blen b); auto. destruct (max_len b <? N.of_nat n)%N; auto. Qed.
+
+Lemma make_room_cases : forall b n, make_room_for b n = (true, b) \/ make_room_for b n = (false, with_ok b false).
+Proof. intros. unfold make_room_for. apply ensure_cases. Qed.
+
+Definition out_template (b : zbuf) : option info :=
+  match rest b, rev (pre b) with
+  | x :: _, _ => Some x
+  | [], l :: _ => Some l
+  | [], [] => None
+  end.
+
+Lemma copy_glyph_exact : forall b b', copy_glyph b = Ok b' -> ok b' = true ->
+  exists x t, rest b = x :: t /\ b' = with_pr b (pre b ++ [x]) (rest b) (dead b).
+Proof.
+  intros b b' H Hok. unfold copy_glyph in H.
+  destruct (make_room_cases b 1) as [E|E]; rewrite E in H; cbn in H.
+  - destruct (rest b) as [|x t] eqn:ER; [discriminate|]. inversion H. eauto.
+  - inversion H; subst b'. discriminate.
+Qed.
+
+Lemma output_glyph_exact : forall b g b', output_glyph b g = Ok b' -> ok b' = true ->
+  b' = match out_template b with
+       | Some x => with_pr b (pre b ++ [set_gid x g]) (rest b) (dead b)
+       | None => b
+       end.
+Proof.
+  intros b g b' H Hok. unfold output_glyph in H. unfold out_template.
+  destruct (make_room_cases b 1) as [E|E]; rewrite E in H; cbn in H.
+  - destruct (rest b) as [|x t]; destruct (rev (pre b)) as [|l r]; inversion H; reflexivity.
+  - inversion H; subst b'. discriminate.
+Qed.
+
+Lemma skip_glyph_exact : forall b b', out_mode b = true -> skip_glyph b = Ok b' ->
+  exists x t, rest b = x :: t /\ b' = with_pr b (pre b) t (S (dead b)).
+Proof.
+  intros b b' Hm H. unfold skip_glyph in H. destruct (rest b) as [|x t]; [discriminate|].
+  rewrite Hm in H. inversion H. eauto.
+Qed.
+
+Lemma replace_glyph_exact : forall b g b', replace_glyph b g = Ok b' -> ok b' = true ->
+  exists x t, rest b = x :: t /\ b' = with_pr b (pre b ++ [set_gid x g]) t (S (dead b)).
+Proof.
+  intros b g b' H Hok. unfold replace_glyph in H. destruct (rest b) as [|x t]; [discriminate|].
+  destruct (make_room_cases b 1) as [E|E]; rewrite E in H; cbn in H.
+  - inversion H. eauto.
+  - inversion H; subst b'. discriminate.
+Qed.
+
+Lemma next_glyph_exact : forall b b', out_mode b = true -> next_glyph b = Ok b' -> ok b' = true ->
+  exists x t, rest b = x :: t /\ b' = with_pr b (pre b ++ [x]) t (S (dead b)).
+Proof.
+  intros b b' Hm H Hok. unfold next_glyph in H. destruct (rest b) as [|x t]; [discriminate|].
+  rewrite Hm in H. destruct (make_room_cases b 1) as [E|E]; rewrite E in H; cbn in H.
+  - inversion H. eauto.
+  - inversion H; subst b'. discriminate.
+Qed.
+
+(* move_to re-splits pre ++ rest at i *)
+Lemma mv_exact : forall b i b', out_mode b = true -> mv b i = Ok b' -> ok b' = true ->
+  i <= length (arr b) /\ exists d, b' = with_pr b (firstn i (arr b)) (skipn i (arr b)) d.
+Proof.
+  intros b i b' Hm H Hok. unfold mv, move_to in H. rewrite Hm in H. cbn [negb] in H.
+  destruct (ok b) eqn:EO; cbn [negb] in H.
+  2:{ cbn in H. inversion H; subst b'. congruence. }
+  destruct (length (pre b) + length (rest b) <? i) eqn:E0; [discriminate|]. apply Nat.ltb_ge in E0.
+  unfold arr. rewrite app_length. split; [exact E0|].
+  destruct (length (pre b) <? i) eqn:E1.
+  - apply Nat.ltb_lt in E1.
+    destruct (make_room_cases b (i - length (pre b))) as [E|E]; rewrite E in H; cbn in H.
+    + inversion H; subst b'. eexists. f_equal.
+      * rewrite firstn_app. rewrite (firstn_all2 (pre b)) by lia. reflexivity.
+      * rewrite skipn_app. rewrite (skipn_all2 (pre b)) by lia. reflexivity.
+    + inversion H; subst b'. discriminate.
+  - apply Nat.ltb_ge in E1. destruct (i <? length (pre b)) eqn:E2.
+    + apply Nat.ltb_lt in E2.
+      assert (F : firstn i (pre b ++ rest b) = firstn i (pre b)).
+      { rewrite firstn_app. replace (i - length (pre b)) with 0 by lia. cbn. apply app_nil_r. }
+      assert (S : skipn i (pre b ++ rest b) = skipn i (pre b) ++ rest b).
+      { rewrite skipn_app. replace (i - length (pre b)) with 0 by lia. reflexivity. }
+      destruct (dead b <? length (pre b) - i).
+      * destruct (ensure_cases b (blen b + (length (pre b) - i - dead b))) as [E|E]; rewrite E in H; cbn in H.
+        -- inversion H; subst b'. eexists. rewrite F, S. reflexivity.
+        -- inversion H; subst b'. discriminate.
+      * cbn in H. inversion H; subst b'. eexists. rewrite F, S. reflexivity.
+    + apply Nat.ltb_ge in E2. assert (i = length (pre b)) by lia. subst i. cbn in H. inversion H; subst b'.
+      exists (dead b). rewrite firstn_app, Nat.sub_diag, firstn_all. cbn. rewrite app_nil_r.
+      rewrite skipn_app, Nat.sub_diag, skipn_all. cbn. destruct b; reflexivity.
+Qed.
+
+(* ---- ok is never restored; out_mode is never changed by these operations *)
+Definition pres (b b' : zbuf) : Prop :=
+  out_mode b' = out_mode b /\ (ok b' = true -> ok b = true /\ length (arr b') = length (arr b)).
+
+Lemma pres_refl : forall b, pres b b.
+Proof. intro b. split; auto. Qed.
+
+Lemma pres_trans : forall a b c, pres a b -> pres b c -> pres a c.
+Proof.
+  intros a b c [M1 P1] [M2 P2]. split; [congruence|]. intro H.
+  destruct (P2 H) as [O2 L2]. destruct (P1 O2) as [O1 L1]. split; [exact O1|congruence].
+Qed.
+
+Lemma mv_out_mode : forall b i b', mv b i = Ok b' -> out_mode b' = out_mode b.
+Proof.
+  intros b i b' H. unfold mv, move_to in H.
+  destruct (out_mode b) eqn:Hm; cbn [negb] in H.
+  - destruct (ok b); cbn [negb] in H; [|cbn in H; inversion H; subst; exact Hm].
+    destruct (length (pre b) + length (rest b) <? i); [discriminate|].
+    destruct (length (pre b) <? i).
+    + destruct (make_room_cases b (i - length (pre b))) as [E|E]; rewrite E in H; cbn in H; inversion H; subst; exact Hm.
+    + destruct (i <? length (pre b)).
+      * destruct (dead b <? length (pre b) - i).
+        -- destruct (ensure_cases b (blen b + (length (pre b) - i - dead b))) as [E|E]; rewrite E in H; cbn in H; inversion H; subst; exact Hm.
+        -- cbn in H. inversion H; subst; exact Hm.
+      * cbn in H. inversion H; subst; exact Hm.
+  - destruct (blen b <? i); [discriminate|]. cbn in H. inversion H; subst. exact Hm.
+Qed.
+
+Lemma mv_pres : forall b i b', out_mode b = true -> mv b i = Ok b' -> pres b b'.
+Proof.
+  intros b i b' Hm H. split; [now apply (mv_out_mode b i)|]. intro Hok.
+  destruct (mv_exact b i b' Hm H Hok) as (Hi & d & E). subst b'. cbn in *.
+  split; [exact Hok|]. unfold arr at 1. cbn. rewrite firstn_skipn. reflexivity.
+Qed.
+
+Lemma replace_glyph_pres : forall b g b', replace_glyph b g = Ok b' -> pres b b'.
+Proof.
+  intros b g b' H. unfold replace_glyph in H. destruct (rest b) as [|x t] eqn:ER; [discriminate|].
+  destruct (make_room_cases b 1) as [E|E]; rewrite E in H; cbn in H; inversion H; subst b'.
+  - split; [reflexivity|]. intro Hok. split; [exact Hok|]. unfold arr. cbn. rewrite ER, !app_length. cbn. lia.
+  - split; [reflexivity|]. cbn. discriminate.
+Qed.
+
+Lemma merge_out_clusters_pres : forall b s e b', merge_out_clusters b s e = Ok b' -> pres b b'.
+Proof.
+  intros b s e b' H. unfold merge_out_clusters in H.
+  destruct (level b =? 2)%N; [inversion H; subst; apply pres_refl|].
+  destruct (e - s <? 2); [inversion H; subst; apply pres_refl|].
+  destruct (nth_error (pre b) s) as [first|]; [|discriminate].
+  destruct (nth_error (pre b) (e - 1)) as [last|]; [|discriminate].
+  inversion H; subst b'. split; [reflexivity|]. intro Hok. split; [exact Hok|].
+  unfold arr. cbn. rewrite !app_length, map_range_length. f_equal.
+  match goal with |- length (if ?c then _ else _) = _ => destruct c end; [|reflexivity].
+  rewrite app_length, map_length, firstn_length, skipn_length. lia.
+Qed.
+
+Lemma lig_delete_pres : forall ps k ml b ml' b', out_mode b = true ->
+  lig_delete ps k ml b = Ok (ml', b') -> pres b b'.
+Proof.
+  induction k; intros ml b ml' b' Hm H; cbn [lig_delete] in H.
+  - inversion H; subst. apply pres_refl.
+  - match type of H with bind ?x _ = _ => destruct x as [b1|] eqn:E1 end; cbn [bind] in H; [|discriminate].
+    match type of H with bind ?x _ = _ => destruct x as [b2|] eqn:E2 end; cbn [bind] in H; [|discriminate].
+    pose proof (mv_pres _ _ _ Hm E1) as P1.
+    pose proof (replace_glyph_pres _ _ _ E2) as P2.
+    assert (Hm2 : out_mode b2 = true) by (destruct P1, P2; congruence).
+    eapply pres_trans; [exact P1|]. eapply pres_trans; [exact P2|]. eapply IHk; eauto.
+Qed.
+
+Lemma lig_loop_pres : forall actions comps ligs ps cursor ml ai lidx b ml' b' amb, out_mode b = true ->
+  lig_loop actions comps ligs ps cursor ml ai lidx b = Ok (ml', b', amb) -> pres b b'.
+Proof.
+  induction cursor; intros ml ai lidx b ml' b' amb Hm H; cbn [lig_loop] in H.
+  - inversion H; subst. apply pres_refl.
+  - match type of H with bind ?x _ = _ => destruct x as [b1|] eqn:E1 end; cbn [bind] in H; [|discriminate].
+    pose proof (mv_pres _ _ _ Hm E1) as P1.
+    assert (Hm1 : out_mode b1 = true) by (destruct P1; congruence).
+    destruct (nth_error actions (N.to_nat ai)) as [action|]; [|inversion H; subst; exact P1].
+    destruct (rest b1) as [|x t] eqn:ER; [discriminate|].
+    match type of H with (if ?c then _ else _) = _ => destruct c end; [inversion H; subst; exact P1|].
+    match type of H with match ?o with Some _ => _ | None => _ end = _ => destruct o as [cv|] end;
+      [|inversion H; subst; exact P1].
+    match type of H with (if ?c then _ else _) = _ => destruct c end.
+    + match type of H with match ?o with Some _ => _ | None => _ end = _ => destruct o as [lig|] end;
+        [|inversion H; subst; exact P1].
+      match type of H with bind ?x _ = _ => destruct x as [b2|] eqn:E2 end; cbn [bind] in H; [|discriminate].
+      match type of H with bind ?x _ = _ => destruct x as [[mlx b3]|] eqn:E3 end; cbn [bind] in H; [|discriminate].
+      match type of H with bind ?x _ = _ => destruct x as [b4|] eqn:E4 end; cbn [bind] in H; [|discriminate].
+      match type of H with bind ?x _ = _ => destruct x as [b5|] eqn:E5 end; cbn [bind] in H; [|discriminate].
+      pose proof (replace_glyph_pres _ _ _ E2) as P2.
+      assert (Hm2 : out_mode b2 = true) by (destruct P2; congruence).
+      pose proof (lig_delete_pres _ _ _ _ _ _ Hm2 E3) as P3.
+      assert (Hm3 : out_mode b3 = true) by (destruct P3; congruence).
+      pose proof (mv_pres _ _ _ Hm3 E4) as P4.
+      assert (Hm4 : out_mode b4 = true) by (destruct P4; congruence).
+      pose proof (merge_out_clusters_pres _ _ _ _ E5) as P5.
+      assert (Hm5 : out_mode b5 = true) by (destruct P5; congruence).
+      assert (P15 : pres b b5).
+      { eapply pres_trans; [exact P1|]. eapply pres_trans; [exact P2|]. eapply pres_trans; [exact P3|].
+        eapply pres_trans; [exact P4|exact P5]. }
+      match type of H with (if ?c then _ else _) = _ => destruct c end.
+      * inversion H; subst. exact P15.
+      * eapply pres_trans; [exact P15|]. eapply IHcursor; eauto.
+    + eapply pres_trans; [exact P1|]. eapply IHcursor; eauto.
+Qed.
+
+(* the ligature transition restores out_len: the remaining input is as long as before *)
+Lemma lig_transition_pot : forall actions comps ligs c e b ops c' b' ops' a, out_mode b = true ->
+  lig_transition actions comps ligs c e b ops = Ok (c', b', ops', a) -> ok b' = true ->
+  out_mode b' = true /\ length (rest b') = length (rest b) /\ ops' = ops.
+Proof.
+  intros actions comps ligs [ml0 ps0] e b ops c' b' ops' a Hm H Hok. unfold lig_transition in H.
+  match type of H with (let '(ml, ps) := ?p in _) = _ => destruct p as [ml ps] end.
+  destruct (has (le_flags e) 8192); [|inversion H; subst; auto].
+  destruct (ml =? 0); [inversion H; subst; auto|].
+  destruct (rest b) as [|x t] eqn:ER; [inversion H; subst; rewrite ER; auto|].
+  match type of H with bind ?x _ = _ => destruct x as [[[ml' b1] amb]|] eqn:E1 end; cbn [bind] in H; [|discriminate].
+  match type of H with bind ?x _ = _ => destruct x as [b2|] eqn:E2 end; cbn [bind] in H; [|discriminate].
+  inversion H; subst c' b' ops' a. clear H.
+  pose proof (lig_loop_pres _ _ _ _ _ _ _ _ _ _ _ _ Hm E1) as P1.
+  assert (Hm1 : out_mode b1 = true) by (destruct P1; congruence).
+  destruct (mv_exact _ _ _ Hm1 E2 Hok) as (Hi & d & EQ).
+  pose proof (mv_pres _ _ _ Hm1 E2) as P2.
+  destruct P2 as [M2 P2]. destruct (P2 Hok) as [O1 L2].
+  destruct P1 as [M1 P1]. destruct (P1 O1) as [O0 L1].
+  split; [congruence|]. split; [|reflexivity].
+  subst b2. cbn. rewrite skipn_length, L1. unfold arr, out_len. rewrite Hm, app_length, ER. cbn. lia.
+Qed.
+
+Lemma streaming_next_glyph : forall b b2, out_mode b = true -> rest b <> [] -> next_glyph b = Ok b2 -> ok b2 = true ->
+  out_mode b2 = true /\ length (rest b2) < length (rest b).
+Proof.
+  intros b b2 Hm _ H Hok. destruct (next_glyph_exact b b2 Hm H Hok) as (x & t & ER & EQ).
+  subst b2. cbn. rewrite ER. cbn. split; [exact Hm|lia].
+Qed.
+
+Lemma clear_output_out_mode : forall b, out_mode (clear_output b) = true.
+Proof. intro b. unfold clear_output. destruct (out_mode b); reflexivity. Qed.
+
+Lemma lig_drive_total : forall actions comps ligs st ng b ops state c amb,
+  let b0 := drive_start false b in
+  drive_loop (lig_machine actions comps ligs) st ng (drive_fuel b0 ops) state c b0 ops amb <> None.
+Proof.
+  intros actions comps ligs st ng b ops state c amb b0.
+  apply (drive_loop_total (lig_machine actions comps ligs) st ng (fun b => out_mode b = true)).
+  - intros c1 e b1 ops1 c' b' ops' a HI HT Hok.
+    destruct (lig_transition_pot _ _ _ _ _ _ _ _ _ _ _ HI HT Hok) as (M & R & ->).
+    split; [exact M|]. unfold pot. lia.
+  - apply streaming_next_glyph.
+  - apply clear_output_out_mode.
+  - unfold drive_fuel, drive_potential, pot. lia.
+Qed.
+
+(* ---- insertion *)
+
+(* growth of pre ++ rest by at most k, rest untouched *)
+Definition grows (k : nat) (b b' : zbuf) : Prop :=
+  out_mode b' = out_mode b /\
+  (ok b' = true -> ok b = true /\ rest b' = rest b /\ length (pre b') <= length (pre b) + k).
+
+Lemma output_glyph_grows : forall b g b', output_glyph b g = Ok b' -> grows 1 b b'.
+Proof.
+  intros b g b' H. unfold output_glyph in H.
+  destruct (make_room_cases b 1) as [E|E]; rewrite E in H; cbn in H.
+  - destruct (rest b) as [|x t] eqn:ER; destruct (rev (pre b)) as [|l r]; inversion H; subst b';
+      (split; [reflexivity|]); intro Hok; cbn in *; rewrite ?ER, ?app_length; cbn; repeat split; auto; lia.
+  - inversion H; subst b'. split; [reflexivity|]. cbn. discriminate.
+Qed.
+
+Lemma output_glyphs_grows : forall gs b b', output_glyphs b gs = Ok b' -> grows (length gs) b b'.
+Proof.
+  induction gs as [|g gs IH]; intros b b' H; cbn [output_glyphs] in H.
+  - inversion H; subst. split; [reflexivity|]. intro. repeat split; auto. cbn. lia.
+  - match type of H with bind ?x _ = _ => destruct x as [b1|] eqn:E1 end; cbn [bind] in H; [|discriminate].
+    destruct (output_glyph_grows _ _ _ E1) as [M1 G1]. destruct (IH _ _ H) as [M2 G2].
+    split; [congruence|]. intro Hok. destruct (G2 Hok) as (O1 & R2 & L2). destruct (G1 O1) as (O0 & R1 & L1).
+    repeat split; [exact O0|congruence|cbn [length]; lia].
+Qed.
+
+Lemma ins_block_grows : forall b before gs b', out_mode b = true -> ins_block b before gs = Ok b' ->
+  out_mode b' = true /\ (ok b' = true -> ok b = true /\ length (arr b') <= length (arr b) + length gs).
+Proof.
+  intros b before gs b' Hm H. unfold ins_block in H.
+  match type of H with bind ?x _ = _ => destruct x as [b1|] eqn:E1 end; cbn [bind] in H; [|discriminate].
+  match type of H with bind ?x _ = _ => destruct x as [b2|] eqn:E2 end; cbn [bind] in H; [|discriminate].
+  destruct (output_glyphs_grows _ _ _ E2) as [M2 G2].
+  destruct (nonempty (rest b) && negb before) eqn:EC.
+  - (* copy ... skip *)
+    assert (Hm1 : out_mode b1 = true).
+    { unfold copy_glyph in E1. destruct (make_room_cases b 1) as [E|E]; rewrite E in E1; cbn in E1.
+      - destruct (rest b); [discriminate|]. inversion E1; subst. exact Hm.
+      - inversion E1; subst. exact Hm. }
+    assert (Hm2 : out_mode b2 = true) by congruence.
+    destruct (nonempty (rest b2) && negb before) eqn:EC2.
+    + destruct (skip_glyph_exact _ _ Hm2 H) as (y & t2 & ER2 & EQ). subst b'. cbn.
+      split; [exact Hm2|]. intro Hok. cbn in Hok. destruct (G2 Hok) as (O1 & R2 & L2).
+      destruct (copy_glyph_exact _ _ E1 O1) as (x & t & ER & EQ1). subst b1. cbn in *.
+      split; [exact O1|]. unfold arr. cbn. rewrite !app_length in *. rewrite ER2 in R2. rewrite <- R2. cbn in *. lia.
+    + inversion H; subst b'. split; [exact Hm2|]. intro Hok. destruct (G2 Hok) as (O1 & R2 & L2).
+      destruct (copy_glyph_exact _ _ E1 O1) as (x & t & ER & EQ1). subst b1. cbn in *.
+      (* rest b2 = rest b is non-empty and before = false: the skip condition cannot be false *)
+      rewrite R2, ER in EC2. apply andb_true_iff in EC. destruct EC as [_ EB]. rewrite EB in EC2. discriminate.
+  - inversion E1; subst b1. assert (Hm2 : out_mode b2 = true) by congruence.
+    destruct (nonempty (rest b2) && negb before) eqn:EC2.
+    + destruct (skip_glyph_exact _ _ Hm2 H) as (y & t2 & ER2 & EQ). subst b'. cbn.
+      split; [exact Hm2|]. intro Hok. cbn in Hok. destruct (G2 Hok) as (O1 & R2 & L2).
+      split; [exact O1|]. unfold arr. cbn. rewrite !app_length. rewrite <- R2, ER2. cbn. lia.
+    + inversion H; subst b'. split; [exact Hm2|]. intro Hok. destruct (G2 Hok) as (O1 & R2 & L2).
+      split; [exact O1|]. unfold arr. rewrite !app_length, R2. lia.
+Qed.
+
+Lemma ins_list_length : forall glyphs n start gs, ins_list glyphs start n = Some gs -> length gs = n.
+Proof.
+  induction n; intros start gs H; cbn in H.
+  - inversion H. reflexivity.
+  - destruct (nth_error glyphs (N.to_nat start)); [|discriminate].
+    destruct (ins_list glyphs (start + 1) n) eqn:E; [|discriminate].
+    inversion H. cbn. f_equal. eapply IHn; eauto.
+Qed.
+
+Lemma ins_checked_count : forall glyphs start count gs cnt amb,
+  ins_checked glyphs start count = (gs, cnt, amb) -> length gs = cnt /\ cnt <= N.to_nat count.
+Proof.
+  intros glyphs start count gs cnt amb H. unfold ins_checked in H.
+  destruct (ins_list glyphs start (N.to_nat count)) eqn:E; inversion H; subst.
+  - apply ins_list_length in E. lia.
+  - cbn. lia.
+Qed.
+
+(* insert (copy? outputs skip?) then move_to tgt: what is left of the input *)
+Lemma ins_at : forall b1 before gs b2 tgt b3, out_mode b1 = true ->
+  ins_block b1 before gs = Ok b2 -> mv b2 tgt = Ok b3 -> ok b3 = true ->
+  out_mode b3 = true /\ ok b1 = true /\ length (rest b3) + tgt <= length (arr b1) + length gs.
+Proof.
+  intros b1 before gs b2 tgt b3 Hm HB HM Hok.
+  destruct (ins_block_grows _ _ _ _ Hm HB) as [Hm2 G].
+  destruct (mv_exact _ _ _ Hm2 HM Hok) as (Ht & d & EQ).
+  assert (O2 : ok b2 = true) by (subst b3; exact Hok).
+  destruct (G O2) as [O1 L]. subst b3. cbn. rewrite skipn_length. repeat split; auto. lia.
+Qed.
+
+Lemma ins_transition_pot : forall glyphs mark e b ops mark' b' ops' a, out_mode b = true ->
+  ins_transition glyphs mark e b ops = Ok (mark', b', ops', a) -> ok b' = true ->
+  out_mode b' = true /\ pot b' ops' <= pot b ops.
+Proof.
+  intros glyphs mark e b ops mark' b' ops' a Hm H Hok. unfold ins_transition in H.
+  match type of H with bind ?x _ = _ => destruct x as [r1|] eqn:E1 end; cbn [bind] in H; [|discriminate].
+  destruct r1 as [[[bm opsm] ambm]|[bm opsm]].
+  - (* the marked part ran (or was absent): second half from (bm, opsm) *)
+    assert (Second : out_mode bm = true -> out_mode b' = true /\ ok bm = true /\ pot b' ops' <= pot bm opsm).
+    { intros Hmm.
+      destruct (ie_current_index e =? 65535)%N; [inversion H; subst; auto|].
+      set (count := N.shiftr (N.land (ie_flags e) 992) 5) in *.
+      destruct (opsm - Z.of_N count <? 0)%Z eqn:EZ.
+      { inversion H; subst. repeat split; auto. unfold pot. apply Z.ltb_lt in EZ. lia. }
+      apply Z.ltb_ge in EZ.
+      destruct (ins_checked glyphs (ie_current_index e) count) as [[gs cnt] amb2] eqn:EC.
+      destruct (ins_checked_count _ _ _ _ _ _ EC) as [Lg Lc].
+      match type of H with bind ?x _ = _ => destruct x as [b2|] eqn:E2 end; cbn [bind] in H; [|discriminate].
+      match type of H with bind ?x _ = _ => destruct x as [b3|] eqn:E3 end; cbn [bind] in H; [|discriminate].
+      inversion H; subst mark' b' ops' a. clear H.
+      destruct (ins_at _ _ _ _ _ _ Hmm E2 E3 Hok) as (M3 & Om & L).
+      repeat split; auto. unfold pot, arr, out_len in *. rewrite Hmm in L. rewrite app_length in L.
+      destruct (has (ie_flags e) 16384); lia. }
+    clear H.
+    destruct (ie_marked_index e =? 65535)%N.
+    { inversion E1; subst bm opsm ambm. destruct (Second Hm) as (M & _ & P). auto. }
+    set (count := N.land (ie_flags e) 31) in *.
+    destruct (ops - Z.of_N count <=? 0)%Z eqn:EZ; [discriminate|]. apply Z.leb_gt in EZ.
+    destruct (ins_checked glyphs (ie_marked_index e) count) as [[gs cnt] amb1] eqn:EC.
+    destruct (ins_checked_count _ _ _ _ _ _ EC) as [Lg Lc].
+    match type of E1 with bind ?x _ = _ => destruct x as [b1|] eqn:F1 end; cbn [bind] in E1; [|discriminate].
+    match type of E1 with bind ?x _ = _ => destruct x as [b2|] eqn:F2 end; cbn [bind] in E1; [|discriminate].
+    match type of E1 with bind ?x _ = _ => destruct x as [b3|] eqn:F3 end; cbn [bind] in E1; [|discriminate].
+    inversion E1; subst bm opsm ambm. clear E1.
+    pose proof (mv_pres _ _ _ Hm F1) as [M1 P1].
+    assert (Hm1 : out_mode b1 = true) by congruence.
+    assert (Hm3 : out_mode b3 = true).
+    { destruct (ins_block_grows _ _ _ _ Hm1 F2) as [Hm2 _]. rewrite (mv_out_mode _ _ _ F3). exact Hm2. }
+    destruct (Second Hm3) as (M & O3 & P).
+    destruct (ins_at _ _ _ _ _ _ Hm1 F2 F3 O3) as (_ & O1 & L).
+    destruct (P1 O1) as [O0 L1].
+    split; [exact M|]. unfold pot, arr, out_len in *. rewrite Hm in L. rewrite !app_length in *. lia.
+  - (* the marked part returned early: budget gone *)
+    inversion H; subst mark' b' ops' a. clear H.
+    destruct (ie_marked_index e =? 65535)%N; [discriminate|].
+    set (count := N.land (ie_flags e) 31) in *.
+    destruct (ops - Z.of_N count <=? 0)%Z eqn:EZ.
+    + inversion E1; subst bm opsm. split; [exact Hm|]. unfold pot. apply Z.leb_le in EZ. lia.
+    + destruct (ins_checked glyphs (ie_marked_index e) count) as [[gs cnt] amb1].
+      match type of E1 with bind ?x _ = _ => destruct x as [b1|] end; cbn [bind] in E1; [|discriminate].
+      match type of E1 with bind ?x _ = _ => destruct x as [b2|] end; cbn [bind] in E1; [|discriminate].
+      match type of E1 with bind ?x _ = _ => destruct x as [b3|] end; cbn [bind] in E1; discriminate.
+Qed.
+
+Lemma ins_drive_total : forall glyphs st ng b ops state c amb,
+  let b0 := drive_start false b in
+  drive_loop (ins_machine glyphs) st ng (drive_fuel b0 ops) state c b0 ops amb <> None.
+Proof.
+  intros glyphs st ng b ops state c amb b0.
+  apply (drive_loop_total (ins_machine glyphs) st ng (fun b => out_mode b = true)).
+  - intros c1 e b1 ops1 c' b' ops' a HI HT Hok. exact (ins_transition_pot _ _ _ _ _ _ _ _ _ HI HT Hok).
+  - apply streaming_next_glyph.
+  - apply clear_output_out_mode.
+  - unfold drive_fuel, drive_potential, pot. lia.
+Qed.
+
+(* ------------------------------------------------------------------ insertion: where the glyphs land *)
+
+Lemma output_glyphs_exact : forall gs b b' x t, rest b = x :: t -> output_glyphs b gs = Ok b' -> ok b' = true ->
+  b' = with_pr b (pre b ++ map (set_gid x) gs) (rest b) (dead b).
+Proof.
+  induction gs as [|g gs IH]; intros b b' x t ER H Hok; cbn [output_glyphs] in H.
+  - inversion H; subst. cbn. rewrite app_nil_r. destruct b'; reflexivity.
+  - match type of H with bind ?x _ = _ => destruct x as [b1|] eqn:E1 end; cbn [bind] in H; [|discriminate].
+    destruct (output_glyphs_grows _ _ _ H) as [_ G]. destruct (G Hok) as (O1 & _ & _).
+    pose proof (output_glyph_exact _ _ _ E1 O1) as EQ. unfold out_template in EQ. rewrite ER in EQ.
+    subst b1.
+    assert (ER1 : rest (with_pr b (pre b ++ [set_gid x g]) (x :: t) (dead b)) = x :: t) by reflexivity.
+    rewrite (IH _ _ x t ER1 H Hok). cbn. rewrite <- app_assoc, ER. reflexivity.
+Qed.
+
+Definition inserted (x : info) (gs : list N) : list info := map (set_gid x) gs.
+
+(* the block around the current glyph x: before => gs x, after => x gs; x stays input when `before` *)
+Lemma ins_block_exact : forall b before gs b' x t, out_mode b = true -> rest b = x :: t ->
+  ins_block b before gs = Ok b' -> ok b' = true ->
+  exists d, b' = with_pr b (pre b ++ (if before then inserted x gs else x :: inserted x gs))
+                          (if before then x :: t else t) d.
+Proof.
+  intros b before gs b' x t Hm ER H Hok. unfold ins_block in H. rewrite ER in H. cbn [nonempty andb] in H.
+  destruct before; cbn [negb] in H.
+  - cbn [bind] in H.
+    match type of H with bind ?x _ = _ => destruct x as [b2|] eqn:E2 end; cbn [bind] in H; [|discriminate].
+    rewrite andb_false_r in H. inversion H; subst b'.
+    rewrite (output_glyphs_exact _ _ _ x t ER E2 Hok). rewrite ER. eexists. reflexivity.
+  - match type of H with bind ?x _ = _ => destruct x as [b1|] eqn:E1 end; cbn [bind] in H; [|discriminate].
+    match type of H with bind ?x _ = _ => destruct x as [b2|] eqn:E2 end; cbn [bind] in H; [|discriminate].
+    rewrite andb_true_r in H.
+    assert (Hm1 : out_mode b1 = true).
+    { unfold copy_glyph in E1. destruct (make_room_cases b 1) as [E|E]; rewrite E in E1; cbn in E1.
+      - rewrite ER in E1. inversion E1; subst. exact Hm.
+      - inversion E1; subst. exact Hm. }
+    destruct (output_glyphs_grows _ _ _ E2) as [M2 G2].
+    assert (Hm2 : out_mode b2 = true) by congruence.
+    destruct (nonempty (rest b2)) eqn:EN.
+    + destruct (skip_glyph_exact _ _ Hm2 H) as (y & t2 & ER2 & EQ). subst b'. cbn in Hok.
+      destruct (G2 Hok) as (O1 & R2 & _).
+      destruct (copy_glyph_exact _ _ E1 O1) as (x' & t' & ER' & EQ1). rewrite ER in ER'. inversion ER'; subst x' t'.
+      subst b1.
+      assert (ER1 : rest (with_pr b (pre b ++ [x]) (rest b) (dead b)) = x :: t) by (cbn; exact ER).
+      pose proof (output_glyphs_exact _ _ _ x t ER1 E2 Hok) as EQ2. cbn in EQ2. subst b2.
+      cbn in ER2. rewrite ER in ER2. inversion ER2; subst y t2. cbn.
+      eexists. rewrite <- app_assoc. reflexivity.
+    + inversion H; subst b'. destruct (G2 Hok) as (O1 & R2 & _).
+      destruct (copy_glyph_exact _ _ E1 O1) as (x' & t' & ER' & EQ1). subst b1. cbn in R2.
+      rewrite R2, ER in EN. discriminate.
+Qed.
+
+Lemma ins_checked_some : forall glyphs start count gs, ins_list glyphs start (N.to_nat count) = Some gs ->
+  ins_checked glyphs start count = (gs, N.to_nat count, 0%N).
+Proof. intros. unfold ins_checked. rewrite H. reflexivity. Qed.
+
+(* insertion at the CURRENT glyph x (no marked insertion in this entry) *)
+Lemma ins_current_exact : forall glyphs mark e b ops mark' b' ops' a x t gs count,
+  out_mode b = true -> rest b = x :: t ->
+  ie_marked_index e = 65535%N -> ie_current_index e <> 65535%N ->
+  count = N.shiftr (N.land (ie_flags e) 0x03E0) 5 ->
+  ins_list glyphs (ie_current_index e) (N.to_nat count) = Some gs ->
+  (0 <= ops - Z.of_N count)%Z ->
+  ins_transition glyphs mark e b ops = Ok (mark', b', ops', a) -> ok b' = true ->
+  arr b' = pre b ++ (if has (ie_flags e) 0x0800 then inserted x gs ++ [x] else x :: inserted x gs) ++ t /\
+  length (pre b') = (if has (ie_flags e) 0x4000 then length (pre b) else length (pre b) + length gs) /\
+  ops' = (ops - Z.of_N count)%Z /\ a = 0%N /\
+  mark' = (if has (ie_flags e) 0x8000 then length (pre b) else mark).
+Proof.
+  intros glyphs mark e b ops mark' b' ops' a x t gs count Hm ER HM HC Hcount HL Hops H Hok.
+  unfold ins_transition in H. rewrite HM in H. cbn [N.eqb Pos.eqb bind] in H.
+  apply N.eqb_neq in HC. rewrite HC in H. rewrite <- Hcount in H.
+  assert (EZ : (ops - Z.of_N count <? 0)%Z = false) by (apply Z.ltb_ge; exact Hops). rewrite EZ in H.
+  rewrite (ins_checked_some _ _ _ _ HL) in H.
+  match type of H with bind ?x _ = _ => destruct x as [b2|] eqn:E2 end; cbn [bind] in H; [|discriminate].
+  match type of H with bind ?x _ = _ => destruct x as [b3|] eqn:E3 end; cbn [bind] in H; [|discriminate].
+  inversion H; subst mark' b' ops' a. clear H.
+  destruct (ins_block_grows _ _ _ _ Hm E2) as [Hm2 _].
+  destruct (mv_exact _ _ _ Hm2 E3 Hok) as (Ht & d & EQ).
+  assert (O2 : ok b2 = true) by (subst b3; exact Hok).
+  destruct (ins_block_exact _ _ _ _ x t Hm ER E2 O2) as (d2 & EQ2).
+  apply ins_list_length in HL.
+  assert (A2 : arr b2 = pre b ++ (if has (ie_flags e) 2048 then inserted x gs ++ [x] else x :: inserted x gs) ++ t).
+  { subst b2. unfold arr. cbn. destruct (has (ie_flags e) 2048); cbn; rewrite <- !app_assoc; reflexivity. }
+  subst b3. unfold arr at 1. cbn. rewrite firstn_skipn. split; [exact A2|].
+  split; [|unfold out_len; rewrite Hm; auto].
+  rewrite firstn_length. unfold out_len in *. rewrite Hm in *.
+  destruct (has (ie_flags e) 16384); lia.
+Qed.
+
+(* insertion at the MARKED glyph m = out[mark] (no current insertion in this entry) *)
+Lemma ins_marked_exact : forall glyphs e b ops mark' b' ops' a P m Q gs count,
+  out_mode b = true -> pre b = P ++ m :: Q ->
+  ie_marked_index e <> 65535%N -> ie_current_index e = 65535%N ->
+  count = N.land (ie_flags e) 0x1F ->
+  ins_list glyphs (ie_marked_index e) (N.to_nat count) = Some gs ->
+  (0 < ops - Z.of_N count)%Z ->
+  ins_transition glyphs (length P) e b ops = Ok (mark', b', ops', a) -> ok b' = true ->
+  arr b' = P ++ (if has (ie_flags e) 0x0400 then inserted m gs ++ [m] else m :: inserted m gs) ++ Q ++ rest b /\
+  length (pre b') = length (pre b) + length gs /\
+  ops' = (ops - Z.of_N count)%Z /\ a = 0%N.
+Proof.
+  intros glyphs e b ops mark' b' ops' a P m Q gs count Hm EP HM HC Hcount HL Hops H Hok.
+  unfold ins_transition in H. apply N.eqb_neq in HM. rewrite HM in H. rewrite <- Hcount in H.
+  assert (EZ : (ops - Z.of_N count <=? 0)%Z = false) by (apply Z.leb_gt; exact Hops). rewrite EZ in H.
+  rewrite (ins_checked_some _ _ _ _ HL) in H.
+  match type of H with bind (bind ?x _) _ = _ => destruct x as [b1|] eqn:E1 end; cbn [bind] in H; [|discriminate].
+  match type of H with bind (bind ?x _) _ = _ => destruct x as [b2|] eqn:E2 end; cbn [bind] in H; [|discriminate].
+  match type of H with bind (bind ?x _) _ = _ => destruct x as [b3|] eqn:E3 end; cbn [bind] in H; [|discriminate].
+  rewrite HC in H. cbn [N.eqb Pos.eqb] in H. inversion H; subst mark' b' ops' a. clear H.
+  pose proof (mv_out_mode _ _ _ E1) as M1. assert (Hm1 : out_mode b1 = true) by congruence.
+  destruct (ins_block_grows _ _ _ _ Hm1 E2) as [Hm2 G2].
+  destruct (mv_exact _ _ _ Hm2 E3 Hok) as (Ht & d3 & EQ3).
+  assert (O2 : ok b2 = true) by (subst b3; exact Hok).
+  destruct (G2 O2) as [O1 _].
+  destruct (mv_exact _ _ _ Hm E1 O1) as (Hmk & d1 & EQ1).
+  assert (F1 : firstn (length P) (arr b) = P).
+  { unfold arr. rewrite EP, <- app_assoc. rewrite firstn_app, Nat.sub_diag, firstn_all. cbn. apply app_nil_r. }
+  assert (S1 : skipn (length P) (arr b) = m :: Q ++ rest b).
+  { unfold arr. rewrite EP, <- app_assoc. rewrite skipn_app, Nat.sub_diag, skipn_all. reflexivity. }
+  rewrite F1, S1 in EQ1.
+  assert (ER1 : rest b1 = m :: Q ++ rest b) by (subst b1; reflexivity).
+  destruct (ins_block_exact _ _ _ _ m (Q ++ rest b) Hm1 ER1 E2 O2) as (d2 & EQ2).
+  apply ins_list_length in HL.
+  assert (A2 : arr b2 = P ++ (if has (ie_flags e) 1024 then inserted m gs ++ [m] else m :: inserted m gs) ++ Q ++ rest b).
+  { subst b2 b1. unfold arr. cbn. destruct (has (ie_flags e) 1024); cbn; rewrite <- !app_assoc; reflexivity. }
+  subst b3. unfold arr at 1. cbn. rewrite firstn_skipn. split; [exact A2|].
+  split; [|auto]. rewrite firstn_length. unfold out_len in *. rewrite Hm in *. lia.
+Qed.
+
+(* ------------------------------------------------------------------ contextual: what is substituted where *)
+
+Definition sub_at (j : nat) (r : option N) (l : list info) : list info :=
+  match r with Some g => map_range (fun x => set_gid x g) j (S j) l | None => l end.
+
+Lemma arr_set_gid_at : forall b i g, arr (set_gid_at b i g) = map_range (fun x => set_gid x g) i (S i) (arr b).
+Proof. intros. unfold set_gid_at. apply arr_of_arr. Qed.
+
+Lemma map_range_cluster : forall (f : info -> info) l s e, (forall x, cluster (f x) = cluster x) ->
+  map cluster (map_range f s e l) = map cluster l.
+Proof. induction l; intros [|s] [|e] Hf; cbn; auto; rewrite ?Hf; f_equal; auto. Qed.
+
+(* a transition that is not skipped (not "end of text without a mark") and whose two table lookups
+   resolve: the glyph at `mark` goes through table mark_index, then the glyph at min(idx, len-1)
+   (as it is AFTER the first substitution) through table current_index; nothing else changes *)
+Lemma ctx_transition_exact : forall subs ng ms mk e b ops c' b' ops' a gm gc rm rc,
+  ((dead b =? blen b) && negb ms)%bool = false -> blen b <> 0 ->
+  (ce_mark_index e =? 65535)%N = false -> nth_error (arr b) mk = Some gm ->
+  ctx_replacement subs ng (ce_mark_index e) (gid gm) = inl rm ->
+  let i := Nat.min (dead b) (blen b - 1) in
+  (ce_current_index e =? 65535)%N = false -> nth_error (sub_at mk rm (arr b)) i = Some gc ->
+  ctx_replacement subs ng (ce_current_index e) (gid gc) = inl rc ->
+  ctx_transition subs ng (ms, mk) e b ops = Ok (c', b', ops', a) ->
+  arr b' = sub_at i rc (sub_at mk rm (arr b)) /\
+  map cluster (arr b') = map cluster (arr b) /\
+  c' = (if has (ce_flags e) 0x8000 then (true, dead b) else (ms, mk)) /\ ops' = ops /\ a = 0%N.
+Proof.
+  intros subs ng ms mk e b ops c' b' ops' a gm gc rm rc Hskip Hnz HMI HGM HRM i HCI HGC HRC H.
+  unfold ctx_transition in H. rewrite Hskip, HMI, HGM in H. cbn [bind] in H. rewrite HRM in H.
+  assert (Hlen : (blen b =? 0) = false) by (now apply Nat.eqb_neq).
+  rewrite Hlen, HCI in H. fold i in H.
+  assert (A1 : arr (match rm with Some r => set_gid_at b mk r | None => b end) = sub_at mk rm (arr b)).
+  { destruct rm; [apply arr_set_gid_at|reflexivity]. }
+  rewrite A1, HGC in H. cbn [bind] in H. rewrite HRC in H.
+  inversion H; subst c' b' ops' a. clear H.
+  assert (A2 : arr (match rc with Some r => set_gid_at (match rm with Some r0 => set_gid_at b mk r0 | None => b end) i r
+                    | None => match rm with Some r0 => set_gid_at b mk r0 | None => b end end)
+               = sub_at i rc (sub_at mk rm (arr b))).
+  { destruct rc; [rewrite arr_set_gid_at, A1; reflexivity|exact A1]. }
+  split; [exact A2|]. split; [|auto].
+  rewrite A2. unfold sub_at. destruct rc, rm; rewrite ?map_range_cluster; auto.
+Qed.
+
+(* ------------------------------------------------------------------ ligature: one pair *)
+
+Lemma mv_noop : forall b, out_mode b = true -> ok b = true -> mv b (length (pre b)) = Ok b.
+Proof.
+  intros b Hm Ho. unfold mv, move_to. rewrite Hm, Ho. cbn [negb].
+  replace (length (pre b) + length (rest b) <? length (pre b)) with false by (symmetry; apply Nat.ltb_ge; lia).
+  rewrite Nat.ltb_irrefl. reflexivity.
+Qed.
+
+Lemma pos_get_set_same : forall ps i v, i < LIG_MAX_MATCHES -> length ps = LIG_MAX_MATCHES -> pos_get (pos_set ps i v) i = v.
+Proof.
+  intros ps i v Hi Hl. unfold pos_get, pos_set. rewrite Nat.mod_small by exact Hi.
+  rewrite nth_upd_nth by lia. now rewrite Nat.eqb_refl.
+Qed.
+
+Lemma pos_get_set_other : forall ps i j v, i < LIG_MAX_MATCHES -> j < LIG_MAX_MATCHES -> i <> j ->
+  length ps = LIG_MAX_MATCHES -> pos_get (pos_set ps i v) j = pos_get ps j.
+Proof.
+  intros ps i j v Hi Hj Hne Hl. unfold pos_get, pos_set. rewrite !Nat.mod_small by assumption.
+  rewrite nth_upd_nth by lia. destruct (Nat.eqb_spec j i); [congruence|reflexivity].
+Qed.
+
+Lemma map_range_gid : forall (f : info -> info) l s e, (forall x, gid (f x) = gid x) ->
+  map gid (map_range f s e l) = map gid l.
+Proof. induction l; intros [|s] [|e] Hf; cbn; auto; rewrite ?Hf; f_equal; auto. Qed.
+
+Lemma gid_set_cluster : forall x c m, gid (set_cluster x c m) = gid x.
+Proof. intros. unfold set_cluster. destruct (cluster x =? c)%N; reflexivity. Qed.
+
+Lemma merge_out_clusters_gids : forall b s e b', merge_out_clusters b s e = Ok b' ->
+  map gid (arr b') = map gid (arr b) /\ length (pre b') = length (pre b).
+Proof.
+  intros b s e b' H. unfold merge_out_clusters in H.
+  destruct (level b =? 2)%N; [inversion H; subst; auto|].
+  destruct (e - s <? 2); [inversion H; subst; auto|].
+  destruct (nth_error (pre b) s) as [first|]; [|discriminate].
+  destruct (nth_error (pre b) (e - 1)) as [last|]; [|discriminate].
+  inversion H; subst b'. unfold arr. cbn. rewrite map_range_length. split; [|reflexivity].
+  rewrite !map_app. f_equal.
+  - apply map_range_gid. intro x. apply gid_set_cluster.
+  - match goal with |- map gid (if ?c then _ else _) = _ => destruct c end; [|reflexivity].
+    rewrite map_app, map_map.
+    transitivity (map gid (firstn (run_len (cluster last) (rest b)) (rest b) ++ skipn (run_len (cluster last) (rest b)) (rest b)));
+      [|now rewrite firstn_skipn].
+    rewrite map_app. f_equal. apply map_ext. intro x. apply gid_set_cluster.
+Qed.
+
+(* what follows the first move_to of an iteration of the action loop keeps `pres` *)
+Lemma lig_loop_tail_pres : forall actions comps ligs ps cur ml ai lidx b b1 ml' b' amb, out_mode b = true ->
+  mv b (pos_get ps cur) = Ok b1 ->
+  lig_loop actions comps ligs ps (S cur) ml ai lidx b = Ok (ml', b', amb) -> pres b1 b'.
+Proof.
+  intros actions comps ligs ps cur ml ai lidx b b1 ml' b' amb Hm E1 H. cbn [lig_loop] in H.
+  rewrite E1 in H. cbn [bind] in H.
+  pose proof (mv_pres _ _ _ Hm E1) as P1.
+  assert (Hm1 : out_mode b1 = true) by (destruct P1; congruence).
+  destruct (nth_error actions (N.to_nat ai)) as [action|]; [|inversion H; subst; apply pres_refl].
+  destruct (rest b1) as [|x t] eqn:ER; [discriminate|].
+  match type of H with (if ?c then _ else _) = _ => destruct c end; [inversion H; subst; apply pres_refl|].
+  match type of H with match ?o with Some _ => _ | None => _ end = _ => destruct o as [cv|] end;
+    [|inversion H; subst; apply pres_refl].
+  match type of H with (if ?c then _ else _) = _ => destruct c end.
+  - match type of H with match ?o with Some _ => _ | None => _ end = _ => destruct o as [lig|] end;
+      [|inversion H; subst; apply pres_refl].
+    match type of H with bind ?x _ = _ => destruct x as [b2|] eqn:E2 end; cbn [bind] in H; [|discriminate].
+    match type of H with bind ?x _ = _ => destruct x as [[mlx b3]|] eqn:E3 end; cbn [bind] in H; [|discriminate].
+    match type of H with bind ?x _ = _ => destruct x as [b4|] eqn:E4 end; cbn [bind] in H; [|discriminate].
+    match type of H with bind ?x _ = _ => destruct x as [b5|] eqn:E5 end; cbn [bind] in H; [|discriminate].
+    pose proof (replace_glyph_pres _ _ _ E2) as P2.
+    assert (Hm2 : out_mode b2 = true) by (destruct P2; congruence).
+    pose proof (lig_delete_pres _ _ _ _ _ _ Hm2 E3) as P3.
+    assert (Hm3 : out_mode b3 = true) by (destruct P3; congruence).
+    pose proof (mv_pres _ _ _ Hm3 E4) as P4.
+    assert (Hm4 : out_mode b4 = true) by (destruct P4; congruence).
+    pose proof (merge_out_clusters_pres _ _ _ _ E5) as P5.
+    assert (Hm5 : out_mode b5 = true) by (destruct P5; congruence).
+    assert (P15 : pres b1 b5).
+    { eapply pres_trans; [exact P2|]. eapply pres_trans; [exact P3|]. eapply pres_trans; [exact P4|exact P5]. }
+    match type of H with (if ?c then _ else _) = _ => destruct c end.
+    + inversion H; subst. exact P15.
+    + eapply pres_trans; [exact P15|]. eapply lig_loop_pres; eauto.
+  - eapply lig_loop_pres; eauto.
+Qed.
+
+Lemma arr_pre_split : forall b P x, pre b = P ++ [x] ->
+  firstn (length P) (arr b) = P /\ skipn (length P) (arr b) = x :: rest b.
+Proof.
+  intros b P x EP. unfold arr. rewrite EP, <- app_assoc. split.
+  - rewrite firstn_app, Nat.sub_diag, firstn_all. cbn. apply app_nil_r.
+  - rewrite skipn_app, Nat.sub_diag, skipn_all. reflexivity.
+Qed.
+
+Lemma lig_loop_S : forall actions comps ligs ps cur ml ai lidx b,
+  lig_loop actions comps ligs ps (S cur) ml ai lidx b =
+  (do b1 <- mv b (pos_get ps cur);
+   match nth_error actions (N.to_nat ai) with
+   | None => Ok (ml, b1, AMB_TABLE)
+   | Some action =>
+     match rest b1 with
+     | [] => Error Oob
+     | x :: _ =>
+       let ci := (Z.of_N (gid x) + lig_offset action)%Z in
+       if (ci <? 0)%Z then Ok (ml, b1, 0%N)
+       else
+         match nth_error comps (Z.to_nat ci) with
+         | None => Ok (ml, b1, AMB_TABLE)
+         | Some cv =>
+           let lidx' := ((lidx + cv) mod 65536)%N in
+           if has action 0xC0000000 then
+             match nth_error ligs (N.to_nat lidx') with
+             | None => Ok (ml, b1, AMB_TABLE)
+             | Some lig =>
+               do b2 <- replace_glyph b1 lig;
+               let lig_end := S (pos_get ps (ml - 1)) in
+               do r <- lig_delete ps (ml - 1 - cur) ml b2;
+               let '(ml', b3) := r in
+               do b4 <- mv b3 lig_end;
+               do b5 <- merge_out_clusters b4 (pos_get ps cur) (out_len b4);
+               if has action 0x80000000 then Ok (ml', b5, 0%N)
+               else lig_loop actions comps ligs ps cur ml' (ai + 1)%N lidx' b5
+             end
+           else lig_loop actions comps ligs ps cur ml (ai + 1)%N lidx' b1
+         end
+     end
+   end).
+Proof. reflexivity. Qed.
+
+(* One pair:  a (on the stack, already in the out-buffer)  b (current, pushed by this entry) with the
+   action list [act0 (component of b); act1 (component of a, STORE or LAST)].  The ligature glyph
+   replaces a, b becomes the deleted glyph 0xFFFF, the cursor ends where it was. *)
+Lemma lig_pair_exact : forall actions comps ligs ps0 e b ops c' b' ops' a P xa xb t act0 act1 c0 c1 lig,
+  out_mode b = true -> pre b = P ++ [xa] -> rest b = xb :: t ->
+  length ps0 = LIG_MAX_MATCHES -> pos_get ps0 0 = length P ->
+  has (le_flags e) 0x8000 = true -> has (le_flags e) 0x2000 = true ->
+  nth_error actions (N.to_nat (le_action_index e)) = Some act0 -> has act0 0xC0000000 = false ->
+  nth_error actions (N.to_nat (le_action_index e + 1)) = Some act1 -> has act1 0xC0000000 = true ->
+  (Z.of_N (gid xb) + lig_offset act0 <? 0)%Z = false ->
+  nth_error comps (Z.to_nat (Z.of_N (gid xb) + lig_offset act0)) = Some c0 ->
+  (Z.of_N (gid xa) + lig_offset act1 <? 0)%Z = false ->
+  nth_error comps (Z.to_nat (Z.of_N (gid xa) + lig_offset act1)) = Some c1 ->
+  nth_error ligs (N.to_nat (((0 + c0) mod 65536 + c1) mod 65536)) = Some lig ->
+  lig_transition actions comps ligs (1, ps0) e b ops = Ok (c', b', ops', a) -> ok b' = true ->
+  map gid (arr b') = map gid P ++ [lig; DELETED_GLYPH] ++ map gid t /\ length (pre b') = length P + 1 /\
+  (exists b4 b5, pre b4 = P ++ [set_gid xa lig; set_gid xb DELETED_GLYPH] /\ rest b4 = t /\ level b4 = level b /\
+                 merge_out_clusters b4 (length P) (length P + 2) = Ok b5 /\ arr b' = arr b5) /\
+  ops' = ops /\ a = 0%N /\ fst c' = (if has act1 0x80000000 then 1 else 0).
+Proof.
+  intros actions comps ligs ps0 e b ops c' b' ops' a P xa xb t act0 act1 c0 c1 lig
+         Hm EP ER Lps P0 FS FP A0 NS0 A1 S1 Z0 C0 Z1 C1 LG H Hok.
+  assert (OL : out_len b = length P + 1) by (unfold out_len; rewrite Hm, EP, app_length; reflexivity).
+  unfold lig_transition in H. rewrite FS, FP, OL in H. cbn [Nat.eqb negb Nat.sub andb] in H.
+  rewrite P0 in H. replace (length P =? length P + 1) with false in H by (symmetry; apply Nat.eqb_neq; lia).
+  set (ps := pos_set ps0 1 (length P + 1)) in *.
+  cbn [Nat.eqb] in H. rewrite ER in H.
+  match type of H with bind ?x _ = _ => destruct x as [[[ml' b1] amb]|] eqn:E1 end; cbn [bind] in H; [|discriminate].
+  match type of H with bind ?x _ = _ => destruct x as [b2|] eqn:E2 end; cbn [bind] in H; [|discriminate].
+  inversion H; subst c' b' ops' a. clear H.
+  assert (G1 : pos_get ps 1 = length P + 1) by (apply pos_get_set_same; [unfold LIG_MAX_MATCHES; lia|exact Lps]).
+  assert (G0 : pos_get ps 0 = length P).
+  { unfold ps. rewrite pos_get_set_other; [exact P0| | |lia|exact Lps]; unfold LIG_MAX_MATCHES; lia. }
+  (* ok flows backwards *)
+  pose proof (lig_loop_pres _ _ _ _ _ _ _ _ _ _ _ _ Hm E1) as PL.
+  assert (Hm1 : out_mode b1 = true) by (destruct PL; congruence).
+  pose proof (mv_pres _ _ _ Hm1 E2) as [_ PM]. destruct (PM Hok) as [O1 _].
+  destruct PL as [_ PL]. destruct (PL O1) as [O0 _].
+  (* first iteration: cursor 2 -> 1, component of b, no store *)
+  rewrite lig_loop_S in E1. rewrite G1 in E1.
+  replace (length P + 1) with (length (pre b)) in E1 at 1 by (rewrite EP, app_length; reflexivity).
+  rewrite (mv_noop b Hm O0) in E1. cbn [bind] in E1.
+  rewrite A0, ER in E1. cbv zeta in E1. rewrite Z0, C0, NS0 in E1.
+  (* second iteration: cursor 1 -> 0 *)
+  destruct (mv b (pos_get ps 0)) as [b1a|] eqn:EA; [|rewrite lig_loop_S, EA in E1; discriminate].
+  pose proof (lig_loop_tail_pres _ _ _ _ _ _ _ _ _ _ _ _ _ Hm EA E1) as [_ PT]. destruct (PT O1) as [O1a _].
+  rewrite lig_loop_S, EA in E1. cbn [bind] in E1.
+  rewrite G0 in EA. destruct (mv_exact _ _ _ Hm EA O1a) as (_ & d1 & EQ1).
+  destruct (arr_pre_split b P xa EP) as [F1 S1']. rewrite F1, S1', ER in EQ1.
+  assert (ER1 : rest b1a = xa :: xb :: t) by (subst b1a; reflexivity).
+  rewrite A1, ER1 in E1. cbv zeta in E1. rewrite Z1, C1, S1, LG in E1.
+  match type of E1 with bind ?x _ = _ => destruct x as [b2a|] eqn:F2 end; cbn [bind] in E1; [|discriminate].
+  match type of E1 with bind ?x _ = _ => destruct x as [[mlx b3a]|] eqn:F3 end; cbn [bind] in E1; [|discriminate].
+  match type of E1 with bind ?x _ = _ => destruct x as [b4a|] eqn:F4 end; cbn [bind] in E1; [|discriminate].
+  match type of E1 with bind ?x _ = _ => destruct x as [b5a|] eqn:F5 end; cbn [bind] in E1; [|discriminate].
+  assert (EB1 : b1 = b5a /\ ml' = (if has act1 2147483648 then mlx else 0) /\ amb = 0%N).
+  { destruct (has act1 2147483648); cbn [lig_loop] in E1; inversion E1; auto. }
+  destruct EB1 as (-> & -> & ->). clear E1.
+  (* ok backwards through the store *)
+  assert (Hm1a : out_mode b1a = true) by (subst b1a; exact Hm).
+  pose proof (replace_glyph_pres _ _ _ F2) as [M2 Q2]. assert (Hm2a : out_mode b2a = true) by congruence.
+  pose proof (lig_delete_pres _ _ _ _ _ _ Hm2a F3) as [M3 Q3]. assert (Hm3a : out_mode b3a = true) by congruence.
+  pose proof (mv_pres _ _ _ Hm3a F4) as [M4 Q4]. assert (Hm4a : out_mode b4a = true) by congruence.
+  pose proof (merge_out_clusters_pres _ _ _ _ F5) as [M5 Q5].
+  destruct (Q5 O1) as [O4 _]. destruct (Q4 O4) as [O3 _]. destruct (Q3 O3) as [O2 _].
+  (* forward: exact shapes *)
+  destruct (replace_glyph_exact _ _ _ F2 O2) as (x2 & t2 & ER2 & EQ2). rewrite ER1 in ER2. inversion ER2; subst x2 t2.
+  assert (PR2 : pre b2a = P ++ [set_gid xa lig]) by (subst b2a b1a; reflexivity).
+  assert (RR2 : rest b2a = xb :: t) by (subst b2a; reflexivity).
+  (* lig_delete: one round *)
+  replace (2 - 1 - 0) with 1 in F3 by reflexivity. cbn [lig_delete Nat.sub] in F3. rewrite G1 in F3.
+  replace (length P + 1) with (length (pre b2a)) in F3 by (rewrite PR2, app_length; reflexivity).
+  rewrite (mv_noop b2a Hm2a O2) in F3. cbn [bind] in F3.
+  match type of F3 with bind ?x _ = _ => destruct x as [b3x|] eqn:F3x end; cbn [bind] in F3; [|discriminate].
+  inversion F3; subst mlx b3x. clear F3.
+  destruct (replace_glyph_exact _ _ _ F3x O3) as (x3 & t3 & ER3 & EQ3). rewrite RR2 in ER3. inversion ER3; subst x3 t3.
+  assert (PR3 : pre b3a = P ++ [set_gid xa lig; set_gid xb DELETED_GLYPH]).
+  { subst b3a. cbn. rewrite PR2, <- app_assoc. reflexivity. }
+  assert (RR3 : rest b3a = t) by (subst b3a; reflexivity).
+  (* move_to(lig_end) is a no-op *)
+  cbn [Nat.sub] in F4. rewrite G1 in F4.
+  replace (S (length P + 1)) with (length (pre b3a)) in F4 by (rewrite PR3, app_length; cbn; lia).
+  rewrite (mv_noop b3a Hm3a O3) in F4. inversion F4; subst b4a. clear F4.
+  destruct (merge_out_clusters_gids _ _ _ _ F5) as [GG LL].
+  (* final move_to(end) *)
+  destruct (mv_exact _ _ _ Hm1 E2 Hok) as (_ & d & EQ). subst b2.
+  unfold arr at 1. cbn. rewrite firstn_skipn. split.
+  - rewrite GG. unfold arr. rewrite PR3, RR3, !map_app. cbn. rewrite <- app_assoc. reflexivity.
+  - split.
+    + rewrite firstn_length. assert (length (arr b5a) >= length P + 2).
+      { unfold arr. rewrite app_length, LL, PR3, app_length. cbn. lia. } lia.
+    + split; [|repeat split].
+      exists b3a, b5a. split; [exact PR3|]. split; [exact RR3|]. split; [subst b3a b2a b1a; reflexivity|].
+      split; [|reflexivity].
+      rewrite G0 in F5. unfold out_len in F5. rewrite Hm3a, PR3, app_length in F5. exact F5.
+Qed.
+
+Lemma nth_error_map_range : forall A (f : A -> A) l s e i,
+  nth_error (map_range f s e l) i = if (s <=? i) && (i <? e) then option_map f (nth_error l i) else nth_error l i.
+Proof.
+  induction l as [|x l IH]; intros s e i.
+  - destruct s, e, i; cbn; try reflexivity; match goal with |- _ = (if ?c then _ else _) => destruct c end; reflexivity.
+  - destruct s as [|s], e as [|e], i as [|i]; cbn; rewrite ?andb_false_r; auto; rewrite IH; reflexivity.
+Qed.
+
+(* levels 0/1: after merge_out_clusters(s, e) every glyph of out[s..e) carries the minimum cluster of the range *)
+Lemma merge_out_clusters_min : forall b s e b' i x, merge_out_clusters b s e = Ok b' ->
+  level b <> 2%N -> 2 <= e - s -> s <= i < e -> nth_error (pre b') i = Some x ->
+  exists first, nth_error (pre b) s = Some first /\
+                cluster x = min_cluster_list (slice (pre b) (S s) e) (cluster first).
+Proof.
+  intros b s e b' i x H HL He Hi Hx. unfold merge_out_clusters in H.
+  apply N.eqb_neq in HL. rewrite HL in H.
+  replace (e - s <? 2) with false in H by (symmetry; apply Nat.ltb_ge; lia).
+  destruct (nth_error (pre b) s) as [first|] eqn:E1; [|discriminate].
+  destruct (nth_error (pre b) (e - 1)) as [last|] eqn:E2; [|discriminate].
+  inversion H; subst b'. clear H. cbn in Hx. rewrite nth_error_map_range in Hx.
+  exists first. split; [reflexivity|].
+  match type of Hx with (if ?c then _ else _) = _ => replace c with true in Hx end.
+  - destruct (nth_error (pre b) i); cbn in Hx; [|discriminate]. inversion Hx. unfold set_cluster. destruct (cluster i0 =? _)%N eqn:EE; [apply N.eqb_eq in EE; exact EE|reflexivity].
+  - symmetry. apply andb_true_iff. split; [apply Nat.leb_le|apply Nat.ltb_lt]; lia.
+Qed.
